@@ -68,6 +68,15 @@ func main() {
 		if len(kv) == 2 {
 			flags = kv[1]
 		}
+		// optional ";maps=expr|expr": range loops over these (string-keyed) map expressions
+		// are iterated in sorted key order
+		sortMaps = map[string]bool{}
+		if i := strings.Index(flags, ";maps="); i >= 0 {
+			for _, e := range strings.Split(flags[i+6:], "|") {
+				sortMaps[strings.TrimSpace(e)] = true
+			}
+			flags = flags[:i]
+		}
 		dir := filepath.Join(*repo, kv[0])
 		ents, err := os.ReadDir(dir)
 		if err != nil {
@@ -155,6 +164,50 @@ func patchEtcd(etcdDir, out string, replace map[string]string) {
 		os.WriteFile(dst, nb, 0o644)
 		replace[src] = dst
 	}
+}
+
+var sortMaps = map[string]bool{}
+
+func exprString(fset *token.FileSet, e ast.Expr) string {
+	var b bytes.Buffer
+	format.Node(&b, fset, e)
+	return b.String()
+}
+
+// rewriteMapRanges: `for k, v := range M { body }` with M in sortMaps becomes
+// `for _, k := range vschedm.SortedStringKeys(M) { v, ok := M[k]; if !ok { continue }; body }`.
+func rewriteMapRanges(fset *token.FileSet, f *ast.File) int {
+	n := 0
+	ast.Inspect(f, func(nd ast.Node) bool {
+		rs, ok := nd.(*ast.RangeStmt)
+		if !ok || !sortMaps[exprString(fset, rs.X)] {
+			return true
+		}
+		if rs.Tok != token.DEFINE {
+			die("map range over %s does not use := (not supported)", exprString(fset, rs.X))
+		}
+		n++
+		m := rs.X
+		key, _ := rs.Key.(*ast.Ident)
+		if key == nil || key.Name == "_" {
+			key = ast.NewIdent(fmt.Sprintf("_vmk%d", n))
+		}
+		var val ast.Expr = ast.NewIdent("_")
+		if v, ok := rs.Value.(*ast.Ident); ok && v.Name != "_" {
+			val = v
+		}
+		okID := ast.NewIdent(fmt.Sprintf("_vmok%d", n))
+		pre := []ast.Stmt{
+			&ast.AssignStmt{Lhs: []ast.Expr{val, okID}, Tok: token.DEFINE, Rhs: []ast.Expr{&ast.IndexExpr{X: m, Index: key}}},
+			&ast.IfStmt{Cond: &ast.UnaryExpr{Op: token.NOT, X: okID}, Body: &ast.BlockStmt{List: []ast.Stmt{&ast.BranchStmt{Tok: token.CONTINUE}}}},
+		}
+		rs.Key = ast.NewIdent("_")
+		rs.Value = key
+		rs.X = &ast.CallExpr{Fun: &ast.SelectorExpr{X: ast.NewIdent("vschedm"), Sel: ast.NewIdent("SortedStringKeys")}, Args: []ast.Expr{m}}
+		rs.Body.List = append(pre, rs.Body.List...)
+		return true
+	})
+	return n
 }
 
 func addImport(f *ast.File, name, path string) {
@@ -279,6 +332,12 @@ func rewriteFile(path, flags string) ([]byte, bool) {
 				Names: []*ast.Ident{ast.NewIdent("_")},
 				Type:  &ast.SelectorExpr{X: ast.NewIdent("time"), Sel: ast.NewIdent("Duration")},
 			}}})
+		}
+	}
+	if len(sortMaps) > 0 {
+		if rewriteMapRanges(fset, f) > 0 {
+			changed = true
+			addImport(f, "vschedm", shimBase+"sched")
 		}
 	}
 	if strings.Contains(flags, "g") {
